@@ -5,7 +5,7 @@ import random
 import sys
 import tempfile
 
-from .. import impl, store
+from .. import impl, store, paths
 
 
 def run_cli(argv):
@@ -205,6 +205,43 @@ def listings(ctx):
             ctx.case((sub, ), True, sub)
             if got[0] != 'ok' or open(out).read() != want:
                 ctx.violation('cli.' + sub, 'file', '%s writes something else than the library call' % sub, {'kind': 'cli', 'argv': [sub]})
+        # create-bundle: the archive type comes from the file name unless --archive-type is given
+        from basis_set_exchange import bundle
+        from .c15 import read_archive
+        fake = os.path.normpath(os.path.join(store.DATA, '..', 'tests', 'fakedata'))
+        if os.path.isdir(fake):
+            for ext, extra, magic in (('.tar.bz2', [], b'BZh'), ('.zip', [], b'PK'), ('.dat', ['--archive-type', 'tbz'], b'BZh')):
+                out, ref = os.path.join(d, 'cli' + ext), os.path.join(d, 'api' + ext)
+                got = run_cli(['-d', fake, 'create-bundle', 'nwchem', 'bib', out] + extra)
+                want = impl.call(bundle.create_bundle, ref, 'nwchem', 'bib', 'tbz' if extra else None, fake)
+                ctx.case(('create-bundle', ext), True, 'create-bundle')
+                rp = {'kind': 'cli', 'argv': ['create-bundle', 'nwchem', 'bib', 'x' + ext] + extra}
+                if (got[0] == 'ok') != (want[0] == 'ok'):
+                    ctx.violation('cli.create-bundle', 'outcome', 'create-bundle %s: command line %s, API %s' % (ext, got[0], want[0]), rp)
+                elif got[0] == 'ok':
+                    head = open(out, 'rb').read(3)
+                    if not head.startswith(magic) or open(ref, 'rb').read(3)[:len(magic)] != magic:
+                        ctx.violation('cli.create-bundle', 'archive-type', 'create-bundle to a %s file writes an archive starting with %r' % (ext, head), rp)
+                    elif ext != '.dat' and sorted(read_archive(out)) != sorted(read_archive(ref)):
+                        ctx.violation('cli.create-bundle', 'members', 'create-bundle %s: members differ from bundle.create_bundle' % ext, rp)
+        # -o FILE under a locale whose preferred encoding is ASCII: the file is UTF-8 like the returned text
+        import subprocess
+        out = os.path.join(d, 'refs.txt')
+        env = dict(os.environ, LC_ALL='C', LANG='C', PYTHONCOERCECLOCALE='0', PYTHONUTF8='0', PYTHONHASHSEED='0', PYTHONPATH=paths.REPO)
+        env.pop('PYTHONIOENCODING', None)
+        pr = subprocess.run([paths.PY, '-c', 'import sys; sys.argv = ["bse", "-o", %r, "get-refs", "def2-tzvp", "txt", "--elements", "1,30"]; '
+                             'from basis_set_exchange.cli import bse_cli; bse_cli.run_bse_cli()' % out],
+                            env=env, stdout=subprocess.PIPE, stderr=subprocess.PIPE, cwd=d)
+        want = impl.call(bse.get_references, 'def2-tzvp', fmt='txt', elements='1,30')
+        ctx.case(('-o', 'ascii-locale'), True, 'output-file-encoding')
+        try:
+            text = open(out, encoding='utf-8').read() if os.path.exists(out) else None
+        except UnicodeDecodeError:
+            text = None
+        if want[0] == 'ok' and (pr.returncode != 0 or text != want[1] + '\n'):
+            ctx.violation('cli.-o', 'encoding', 'bse -o FILE get-refs under an ASCII locale: exit code %d, file %s the UTF-8 text the API returns (%s)'
+                          % (pr.returncode, 'is not' if text is not None else 'missing / not', pr.stderr.decode()[-120:]),
+                          {'kind': 'cli', 'argv': ['-o', 'FILE', 'get-refs', 'def2-tzvp', 'txt']})
     finally:
         import shutil
         shutil.rmtree(d, ignore_errors=True)
